@@ -124,11 +124,22 @@ def check(markup, steps, tok):
     return res, nref
 
 
+def check_all_steps(markup, tok):
+    """One execution = the three step lists applied in order to the same markup (the same document cleaned in
+    different ways within one process)."""
+    out, nref = [], 0
+    for steps in STEPS:
+        res, n = check(markup, steps, tok)
+        nref += n
+        out += [(lab, f"{det} [steps={steps}]") for lab, det in res]
+    return out, nref
+
+
 def replay(case):
     if case["tok"] == "HS":
         tokenizer("HS")
-    res, _ = check(case["markup"], case["steps"], case["tok"])
-    return [{"msg": f"{lab}: {det} :: markup={case['markup']!r} steps={case['steps']}", "label": lab} for lab, det in res]
+    res, _ = check_all_steps(case["markup"], case["tok"])
+    return [{"msg": f"{lab}: {det} :: markup={case['markup']!r}", "label": lab} for lab, det in res]
 
 
 def setup(tier, seed):
@@ -145,20 +156,19 @@ def run_shard(sh):
     st = Stats()
     p = st.part(sh["tok"])
     for markup in itertools.islice(documents(), sh["r"], None, sh["n"]):
-        for steps in STEPS:
-            st.evaluations += 1
-            st.traces += 1
-            st.transitions += 1
-            p["evaluations"] += 1
-            key = h64([sh["tok"], markup, steps])
-            st.states.add(key)
-            res, nref = check(markup, steps, sh["tok"])
-            if nref:
-                st.nontrivial.add(key)
-                if not st.samples:
-                    st.sample({"markup": markup, "steps": steps, "references": nref})
-            st.outcomes.add(h64([nref, [r[0] for r in res]]))
-            for lab, det in res:
-                case = {"tok": sh["tok"], "markup": markup, "steps": steps}
-                st.violation(case, f"{lab}: {det} :: markup={markup!r} steps={steps}", label=lab)
+        st.evaluations += len(STEPS)
+        st.traces += len(STEPS)
+        st.transitions += len(STEPS)
+        p["evaluations"] += len(STEPS)
+        key = h64([sh["tok"], markup])
+        st.states.add(key)
+        res, nref = check_all_steps(markup, sh["tok"])
+        if nref:
+            st.nontrivial.add(key)
+            if not st.samples:
+                st.sample({"markup": markup, "step_lists": STEPS, "references": nref})
+        st.outcomes.add(h64([nref, [r[0] for r in res]]))
+        for lab, det in res:
+            case = {"tok": sh["tok"], "markup": markup}
+            st.violation(case, f"{lab}: {det} :: markup={markup!r}", label=lab)
     return st
